@@ -1531,3 +1531,164 @@ func init() {
 	})
 }
 
+// ---- SQL ref store: failed statements abort, no in-memory state ----
+
+func init() {
+	register(&Rule{
+		ID: "C15-f", Template: "T5-strong (a failed statement aborts the transaction)",
+		Doc: "A ref operation happens completely or not at all: inside every sqlutil.RunInTx closure of pkg/ref/sql, when a write or multi-row read on the transaction ((*sql.Tx).Exec / Query / Prepare) fails, every path from the failure leaves the closure with a non-nil error (single-row Scans are out of scope: a failed Scan is how this store learns that a ref does not exist). An error that is examined and then answered with a second, different statement (INSERT failed → UPDATE instead) commits a half-intended result: a rename onto a taken name overwrites it instead of failing.",
+		Min: 8,
+		Run: func(p *Program, r *RuleResult) error {
+			runInTx, err := runInTxFunc(p)
+			if err != nil {
+				return err
+			}
+			fns := p.FuncsInPkg("pkg/ref/sql")
+			r.Analysed = len(fns)
+			for _, fn := range fns {
+				for cl := range txClosures(fn, runInTx) {
+					for _, call := range errCalls(cl) {
+						f := calleeFunc(call)
+						if f == nil || f.Pkg() == nil || f.Pkg().Path() != "database/sql" {
+							continue
+						}
+						// writes and multi-row reads; a failed single-row Scan is this store's
+						// way of learning that the ref does not exist (old value nil)
+						if n := f.Name(); n != "Exec" && n != "ExecContext" && n != "Query" && n != "QueryContext" && n != "Prepare" {
+							continue
+						}
+						vals := errValuesOfCall(call)
+						if vals == nil {
+							continue
+						}
+						key := callKey(cl, call)
+						what := "a failed statement makes the transaction closure return an error"
+						// failure edges of this call's error tests
+						fail := successEdgesFail(cl, call)
+						if len(fail) == 0 {
+							// the error is returned directly (return tx.Exec(...)) or not tested at all
+							direct := false
+							for _, ret := range returnsOf(cl) {
+								if v := retVal(ret, errorResultIndex(cl.Signature)); v != nil && vals[v] {
+									direct = true
+								}
+							}
+							if direct {
+								r.ok(key, p.Rel(call.Pos()), what)
+							} else {
+								r.bad(key, p.Rel(call.Pos()), what, "the statement's error is neither tested nor returned")
+							}
+							continue
+						}
+						noRows := testEdges(cl, eofTestsOn(cl, vals, "database/sql", "ErrNoRows"), true)
+						bad := ""
+						for _, e := range fail {
+							succ := e.from.Succs[e.succ]
+							if !failsOnly(cl, succ, mkCut(noRows), vals, map[*ssa.BasicBlock]bool{}) {
+								bad = fmt.Sprintf("after %s failed (%s) the closure can go on and return nil: the transaction commits although a statement of it did not happen", shortObj(f), p.Rel(call.Pos()))
+							}
+						}
+						if bad != "" {
+							r.bad(key, p.Rel(call.Pos()), what, bad)
+						} else {
+							r.ok(key, p.Rel(call.Pos()), what)
+						}
+					}
+				}
+			}
+			return nil
+		},
+	})
+
+	register(&Rule{
+		ID: "C15-g", Template: "T3 who-may-write (the store has no memory of its own)",
+		Doc: "The ref store is the database: no method of pkg/ref/sql.Store stores into a field of the Store or updates a map or slice held in one (outside the constructor). Ordinals, old values and listings are read from the tables inside the transaction that uses them; a cache kept in the Store object goes stale as soon as a rename, copy, delete — or another process sharing the SQLite file — changes the rows behind it.",
+		Min: 1,
+		Run: func(p *Program, r *RuleResult) error {
+			st, err := p.NamedType("pkg/ref/sql.Store")
+			if err != nil {
+				return err
+			}
+			fns := p.FuncsInPkg("pkg/ref/sql")
+			r.Analysed = len(fns)
+			n := 0
+			isStoreField := func(addr ssa.Value) (*types.Var, bool) {
+				fa, ok := addr.(*ssa.FieldAddr)
+				if !ok {
+					return nil, false
+				}
+				if nt, ok := derefType(fa.X.Type()).(*types.Named); !ok || nt.Obj() != st.Obj() {
+					return nil, false
+				}
+				return structField(fa.X.Type(), fa.Field), true
+			}
+			for _, fn := range fns {
+				if fn.Name() == "NewStore" || fn.Signature.Recv() == nil && fn.Parent() == nil {
+					continue
+				}
+				for _, b := range fn.Blocks {
+					for _, in := range b.Instrs {
+						switch x := in.(type) {
+						case *ssa.Store:
+							if f, ok := isStoreField(x.Addr); ok {
+								n++
+								r.bad(fmt.Sprintf("%s|Store.%s=", funcName(fn), f.Name()), p.Rel(x.Pos()), "the SQL ref store keeps no state outside the database", funcName(fn)+" assigns Store."+f.Name())
+							}
+						case *ssa.MapUpdate:
+							if u, ok := x.Map.(*ssa.UnOp); ok && u.Op == token.MUL {
+								if f, ok := isStoreField(u.X); ok {
+									n++
+									r.bad(fmt.Sprintf("%s|Store.%s[·]=", funcName(fn), f.Name()), p.Rel(x.Pos()), "the SQL ref store keeps no state outside the database", funcName(fn)+" updates the map Store."+f.Name()+": an in-memory shadow of table contents that renames, copies, deletes and other processes do not keep current")
+								}
+							}
+						}
+					}
+				}
+			}
+			if n == 0 {
+				r.ok("pkg/ref/sql.Store|stateless", "", "the SQL ref store keeps no state outside the database")
+			}
+			return nil
+		},
+	})
+}
+
+// failsOnly: every path from b ends in a return of a non-nil error (or passes a cut
+// edge, which ends the obligation).
+func failsOnly(fn *ssa.Function, b *ssa.BasicBlock, exempt cutSet, errVals map[ssa.Value]bool, seen map[*ssa.BasicBlock]bool) bool {
+	if seen[b] {
+		return false
+	}
+	seen[b] = true
+	defer delete(seen, b)
+	if len(b.Instrs) == 0 {
+		return false
+	}
+	switch t := b.Instrs[len(b.Instrs)-1].(type) {
+	case *ssa.Return:
+		ei := errorResultIndex(fn.Signature)
+		if ei < 0 {
+			return false
+		}
+		v := retVal(t, ei)
+		if v == nil || isNilConst(v) {
+			return false
+		}
+		return errVals[v] || definitelyNonNilError(v) || nonNilByGuard(fn, t, v) || isGlobalLoad(v)
+	case *ssa.Panic:
+		return true
+	default:
+		if len(b.Succs) == 0 {
+			return false
+		}
+		for i, s := range b.Succs {
+			if exempt[edge{b, i}] {
+				continue
+			}
+			if !failsOnly(fn, s, exempt, errVals, seen) {
+				return false
+			}
+		}
+		return true
+	}
+}
